@@ -158,8 +158,12 @@ def apply(m, root):
     p = os.path.join(root, m["file"])
     src = open(p).read().split("\n")
     ln = m["line"] - 1
-    if src[ln] != m["old"]:
-        return False
+    if ln >= len(src) or src[ln] != m["old"]:
+        # the tree moved on since the mutant was generated: accept the unique identical line nearby
+        cands = [i for i in range(max(0, ln - 80), min(len(src), ln + 80)) if src[i] == m["old"]]
+        if len(cands) != 1:
+            return False
+        ln = cands[0]
     if m["op"] == "drop-early-exit":
         del src[ln:ln + m["span"]]
     elif m["new"] == "":
